@@ -148,6 +148,165 @@ impl<Effect, Event> CommandContext<Effect, Event> {
 //@end
 }
 
+
+// ================================================================== the future side (command/context.rs:150-230)
+// ShellStream::{send, poll_next} and ShellRequest::poll, extracted verbatim. The request's private
+// channel is shared with the resolve continuation (proved above), which another call - or another
+// thread - runs: the contracts below are quantified over EVERY state of that channel at the call.
+pub mod future_side {
+    use super::*;
+
+    pub tracked struct XW {
+        /// how many times the request has been handed to the shell (the boxed send_request called)
+        pub ghost sent: nat,
+        /// values the continuation has put into the channel that the stream has not yet taken
+        pub ghost pending: Seq<int>,
+        /// every sender is gone (the request was dropped unresolved / its stream ended)
+        pub ghost closed: bool,
+        /// the waker the receiving end holds for its consumer
+        pub ghost rx_waker: Option<int>,
+    }
+    pub uninterp spec fn val_id<T>(t: T) -> int;
+
+    #[verifier::external_body]
+    pub struct Context<'a> { _p: core::marker::PhantomData<&'a ()> }
+    impl<'a> Context<'a> {
+        pub uninterp spec fn waker_id(&self) -> int;
+    }
+    pub enum Poll<T> { Ready(T), Pending }
+
+    /// X5: `Box<dyn FnOnce() + Send>` - the deferred `effects.send(effect).expect(..)` built by the
+    /// constructors above
+    #[verifier::external_body]
+    pub struct SendRequest { _p: u8 }
+    impl SendRequest {
+        #[verifier::external_body]
+        pub fn call(self, Tracked(w): Tracked<&mut XW>)
+            ensures *final(w) == (XW { sent: old(w).sent + 1, ..*old(w) }),
+        { unimplemented!() }
+    }
+    pub assume_specification<T> [std::mem::replace] (dest: &mut T, src: T) -> (r: T)
+        ensures *final(dest) == src, r == *old(dest);
+
+    /// ASSUMED: futures::channel::mpsc::UnboundedReceiver as a Stream (X12: `pin!(rx).poll_next(cx)`):
+    /// the oldest value if there is one; end of stream once empty and every sender is gone;
+    /// otherwise Pending with the consumer's waker stored for the next send / close
+    #[verifier::external_body]
+    #[verifier::accept_recursive_types(T)]
+    pub struct Receiver<T> { _p: core::marker::PhantomData<T> }
+    impl<T> Receiver<T> {
+        #[verifier::external_body]
+        pub fn poll_next(&mut self, Tracked(w): Tracked<&mut XW>, cx: &mut Context<'_>) -> (r: Poll<Option<T>>)
+            ensures
+                old(w).pending.len() > 0 ==> (r matches Poll::Ready(Some(v)) && val_id(v) == old(w).pending[0] && *final(w) == (XW { pending: old(w).pending.drop_first(), ..*old(w) })),
+                old(w).pending.len() == 0 && old(w).closed ==> r == Poll::Ready(None::<T>) && *final(w) == *old(w),
+                old(w).pending.len() == 0 && !old(w).closed ==> r is Pending && *final(w) == (XW { rx_waker: Some(old(cx).waker_id()), ..*old(w) }),
+        { unimplemented!() }
+    }
+    /// `mpsc::unbounded().1` (the throw-away receiver of ShellStream::send's swap)
+    #[verifier::external_body]
+    pub fn dummy_receiver<T>() -> Receiver<T> { unimplemented!() }
+
+//@extract id=fut.ShellStream file=crux_core/src/command/context.rs item="enum ShellStream"
+//@contract
+    #[verifier::reject_recursive_types(T)]
+//@rule X3.auto-traits 1 s/<T: Unpin \+ Send>/<T>/
+//@rule X5.boxed-fnonce 1 s/Box<dyn FnOnce\(\) \+ Send>/SendRequest/
+//@rule X5.mpsc * s/mpsc::UnboundedReceiver<T>/Receiver<T>/
+//@end
+
+    impl<T> ShellStream<T> {
+//@extract id=ShellStream::send file=crux_core/src/command/context.rs within="impl<T: Unpin + Send> ShellStream<T>" item="fn send" props=C01+C02
+//@expect fn send(&mut self)
+//@sig pub fn send(&mut self, Tracked(w): Tracked<&mut XW>)
+//@contract
+            requires
+                *old(self) is ReadyToSend,
+            ensures
+                *final(self) == ShellStream::Sent(old(self)->ReadyToSend_1), // [C02/ShellStream::send/keeps-its-own-receiver]
+                *final(w) == (XW { sent: old(w).sent + 1, ..*old(w) }), // [C01+C02/ShellStream::send/hands-the-request-to-the-shell-exactly-once]
+//@rule X5.mpsc 1 s/mpsc::unbounded\(\)\.1/dummy_receiver()/
+//@rule X6.world 1 s/\bsend_request\(\)/send_request.call(Tracked(w))/
+//@end
+
+//@extract id=ShellStream::poll_next file=crux_core/src/command/context.rs within="impl<T: Unpin + Send> Stream for ShellStream<T>" item="fn poll_next" props=C01+C02+C07
+//@expect fn poll_next(mut self: Pin<&mut Self>, cx: &mut Context<'_>) -> Poll<Option<Self::Item>>
+//@sig pub fn poll_next(&mut self, Tracked(w): Tracked<&mut XW>, cx: &mut Context<'_>) -> (r: Poll<Option<T>>)
+//@contract
+            requires
+                // the only sender of the private channel lives in the resolve continuation inside the
+                // request, which nobody has seen before it is sent (constructors above)
+                *old(self) is ReadyToSend ==> old(w).pending.len() == 0 && !old(w).closed,
+            ensures
+                *final(self) is Sent,
+                *old(self) is ReadyToSend ==> r is Pending && final(w).sent == old(w).sent + 1, // [C01+C02/ShellStream::poll_next/the-first-poll-hands-the-request-to-the-shell-exactly-once-and-waits]
+                *old(self) is ReadyToSend ==> final(w).rx_waker == Some(old(cx).waker_id()), // [C02/ShellStream::poll_next/the-consumers-waker-is-in-place-before-the-request-can-be-answered]
+                *old(self) is Sent ==> final(w).sent == old(w).sent, // [C01+C02/ShellStream::poll_next/the-request-is-never-sent-twice]
+                *old(self) is Sent && old(w).pending.len() > 0 ==> (r matches Poll::Ready(Some(v)) && val_id(v) == old(w).pending[0] && final(w).pending == old(w).pending.drop_first()), // [C02/ShellStream::poll_next/the-oldest-undelivered-value-is-yielded-unchanged-and-removed]
+                *old(self) is Sent && old(w).pending.len() == 0 && !old(w).closed ==> r is Pending && final(w).rx_waker == Some(old(cx).waker_id()), // [C02/ShellStream::poll_next/pending-only-with-the-consumers-waker-stored]
+                *old(self) is Sent && old(w).pending.len() == 0 && old(w).closed ==> r == Poll::Ready(None::<T>) && *final(w) == *old(w), // [C07/ShellStream::poll_next/a-closed-channel-ends-the-stream-and-stores-no-waker]
+//@rule X12.pin-erasure * s/pin!\((\w+)\)\.poll_next\(cx\)/\1.poll_next(Tracked(w), cx)/
+//@rule X9.assert 1 s#assert!\(matches!\(poll, Poll::Pending\)\);#assert(matches!(poll, Poll::Pending)); // [C02/ShellStream::poll_next/nothing-can-have-arrived-before-the-request-was-sent]#
+//@rule X6.world 1 s/self\.send\(\)/self.send(Tracked(w))/
+//@end
+    }
+
+    /// ASSUMED: `Fuse<StreamFuture<ShellStream<T>>>` (futures 0.3), by what `poll_unpin` does: unless
+    /// it has already completed, poll the stream's `poll_next` (proved above) once and complete with
+    /// its item; once completed, answer Pending and touch nothing (Fuse)
+    #[verifier::external_body]
+    #[verifier::reject_recursive_types(T)]
+    pub struct FusedStreamFuture<T> { _p: core::marker::PhantomData<T> }
+    #[verifier::external_body]
+    #[verifier::reject_recursive_types(T)]
+    pub struct Rest<T> { _p: core::marker::PhantomData<T> }
+    impl<T> FusedStreamFuture<T> {
+        pub uninterp spec fn terminated(&self) -> bool;
+        pub uninterp spec fn stream(&self) -> ShellStream<T>;
+        #[verifier::external_body]
+        pub fn poll_unpin(&mut self, Tracked(w): Tracked<&mut XW>, cx: &mut Context<'_>) -> (r: Poll<(Option<T>, Rest<T>)>)
+            requires
+                !old(self).terminated() && old(self).stream() is ReadyToSend ==> old(w).pending.len() == 0 && !old(w).closed,
+            ensures
+                old(self).terminated() ==> r is Pending && *final(w) == *old(w) && final(self).terminated(),
+                !old(self).terminated() ==> final(self).terminated() == (r is Ready),
+                // the stream's own contract (ShellStream::poll_next above), for a stream already sent
+                !old(self).terminated() && old(self).stream() is Sent && old(w).pending.len() > 0 ==> (r matches Poll::Ready((Some(v), _)) && val_id(v) == old(w).pending[0] && final(w).pending == old(w).pending.drop_first() && final(w).sent == old(w).sent),
+                !old(self).terminated() && old(self).stream() is Sent && old(w).pending.len() == 0 && old(w).closed ==> (r matches Poll::Ready((None, _))) && *final(w) == *old(w),
+                !old(self).terminated() && old(self).stream() is Sent && old(w).pending.len() == 0 && !old(w).closed ==> r is Pending && final(w).rx_waker == Some(old(cx).waker_id()) && final(w).sent == old(w).sent,
+                !old(self).terminated() && old(self).stream() is ReadyToSend ==> r is Pending && final(w).sent == old(w).sent + 1 && final(w).rx_waker == Some(old(cx).waker_id()),
+                !old(self).terminated() ==> final(self).stream() is Sent,
+                old(self).terminated() ==> final(self).stream() == old(self).stream(),
+        { unimplemented!() }
+    }
+
+//@extract id=fut.ShellRequest file=crux_core/src/command/context.rs item="struct ShellRequest"
+//@contract
+    #[verifier::reject_recursive_types(T)]
+//@rule X3.auto-traits 1 s/<T: Unpin \+ Send>/<T>/
+//@rule X5.futures-adapters 1 s/Fuse<StreamFuture<ShellStream<T>>>/FusedStreamFuture<T>/
+//@rule X2.vis 1 s/\n(\s+)inner:/\n\1pub inner:/
+//@end
+
+    impl<T> ShellRequest<T> {
+//@extract id=ShellRequest::poll file=crux_core/src/command/context.rs within="impl<T: Unpin + Send> Future for ShellRequest<T>" item="fn poll" props=C02+C07
+//@expect fn poll(mut self: Pin<&mut Self>, cx: &mut Context<'_>) -> Poll<Self::Output>
+//@sig pub fn poll(&mut self, Tracked(w): Tracked<&mut XW>, cx: &mut Context<'_>) -> (r: Poll<T>)
+//@contract
+            requires
+                !old(self).inner.terminated() && old(self).inner.stream() is ReadyToSend ==> old(w).pending.len() == 0 && !old(w).closed,
+            ensures
+                !old(self).inner.terminated() && old(self).inner.stream() is Sent && old(w).pending.len() > 0 ==> (r matches Poll::Ready(v) && val_id(v) == old(w).pending[0]), // [C02/ShellRequest::poll/the-response-is-returned-unchanged]
+                r is Ready ==> !old(self).inner.terminated() && old(w).pending.len() > 0 && final(self).inner.terminated(), // [C02+C07/ShellRequest::poll/ready-only-with-a-delivered-response-and-only-once]
+                !old(self).inner.terminated() && old(self).inner.stream() is Sent && old(w).pending.len() == 0 && old(w).closed ==> r is Pending && *final(w) == *old(w) && final(self).inner.terminated(), // [C07/ShellRequest::poll/a-request-whose-channel-closed-stays-pending-and-stores-no-waker]
+                old(self).inner.terminated() ==> r is Pending && *final(w) == *old(w), // [C07/ShellRequest::poll/and-never-registers-a-waker-again]
+                !old(self).inner.terminated() && old(self).inner.stream() is ReadyToSend ==> r is Pending && final(w).sent == old(w).sent + 1, // [C01+C02/ShellRequest::poll/the-first-poll-hands-the-request-to-the-shell-exactly-once]
+                !(!old(self).inner.terminated() && old(self).inner.stream() is ReadyToSend) ==> final(w).sent == old(w).sent, // [C01+C02/ShellRequest::poll/never-sent-twice]
+//@rule X6.world 1 s/self\.inner\.poll_unpin\(cx\)/self.inner.poll_unpin(Tracked(w), cx)/
+//@end
+    }
+}
+
 } // verus!
 
 fn main() {}
